@@ -16,5 +16,9 @@ func controlsC02() []Control {
 		{Name: "every hand entry gets a dealer label", Expect: "R1", Mutate: replaceIn("(*tableEngine).startGame", "\topts.Players = playerSettings\n", "\tplayerSettings[1].Positions = append(playerSettings[1].Positions, Position_Dealer)\n\topts.Players = playerSettings\n", 0)},
 		{Name: "leave remap records positions in the old player list", Expect: "R4", Mutate: replaceIn("(*tableEngine).calcLeavePlayers", "for newPlayerIdx, player := range newPlayerStates {\n\t\tnewPlayerData[player.PlayerID] = newPlayerIdx", "for newPlayerIdx, player := range currentPlayers {\n\t\tnewPlayerData[player.PlayerID] = newPlayerIdx", 0)},
 		{Name: "engine seat scan compares the unreduced counter", Expect: "R4", Mutate: replaceIn("(*tableEngine).refreshNextBBOrderPlayerIDs", "newBBSeatID := i % tableMaxSeatCount", "newBBSeatID := i", 0)},
+		{Name: "leave remap rebuilds the hand list in seat order", Expect: "R4", Mutate: replaceIn("(*tableEngine).calcLeavePlayers", "for _, currentPlayerIdx := range te.table.State.GamePlayerIndexes {", "for _, currentPlayerIdx := range te.table.State.SeatMap {", 0)},
+		{Name: "leave remap records ids under shifted positions", Expect: "R4", Mutate: replaceIn("(*tableEngine).calcLeavePlayers", "currentGamePlayerData[playerIdx] = te.table.State.PlayerStates[playerIdx].PlayerID", "currentGamePlayerData[playerIdx] = newPlayerStates[playerIdx%len(newPlayerStates)].PlayerID", 0)},
+		{Name: "leave during play keeps the old hand indexes", Expect: "R4", Mutate: replaceIn("(*tableEngine).calcLeavePlayers", "\t\tTableStateStatus_TableGamePlaying,\n", "", 0)},
+		{Name: "leave remap applied only outside hands", Expect: "R4", Mutate: replaceIn("(*tableEngine).calcLeavePlayers", "if funk.Contains(gameStatuses, status) {", "if !funk.Contains(gameStatuses, status) {", 0)},
 	}
 }
